@@ -105,6 +105,7 @@ class Contract:
         self.assumes_ = []
         self.result_names = None
         self.refines_ = {}
+        self.shadows = {}
 
     def types(self, **kw):
         self.param_types.update(kw)
@@ -130,8 +131,17 @@ class Contract:
         self.ghosts.append((name, typ, init))
         return self
 
-    def after_stmt(self, pattern, code, count=None):
-        self.hooks.append((_norm_src(pattern), list(code), count))
+    def after_stmt(self, pattern, code, occurrence=None):
+        """ghost code executed after every statement whose source text equals `pattern`
+        (or only after its occurrence-th appearance, counted in source order inside the function)"""
+        self.hooks.append((_norm_src(pattern), list(code), occurrence))
+        return self
+
+    def shadow(self, arr, ghost, source):
+        """provenance ghost: `ghost[i]` is the index in `source` that `arr[i]` was copied from.
+        Every store  arr[e1] = arr[e2]  also does ghost[e1] = ghost[e2];  arr[e1] = source[e2] does ghost[e1] = e2;
+        any other store into arr is rejected (binding error)."""
+        self.shadows[arr] = (ghost, source)
         return self
 
     def on_store(self, arrname, code):
@@ -241,6 +251,19 @@ def _target_bases(t):
     return []
 
 
+def _has_quant(f):
+    todo, seen = [f], set()
+    while todo:
+        e = todo.pop()
+        if e.get_id() in seen:
+            continue
+        seen.add(e.get_id())
+        if z3.is_quantifier(e):
+            return True
+        todo.extend(e.children())
+    return False
+
+
 class Engine:
     def __init__(self, source_text, contract, filename="<src>", callees=None, fn_node=None, extra_builtins=None):
         self.c = contract
@@ -259,6 +282,28 @@ class Engine:
         self.entry = None
         self.paths_done = 0
         self.quiet = 0
+        self.pruned = 0
+        self.stmt_occ = {}
+        seen = {}
+        for n in ast.walk(self.fn):
+            pass
+        def _order(stmts):
+            for st in stmts:
+                if not isinstance(st, (ast.If, ast.For, ast.While, ast.With, ast.Try, ast.FunctionDef)):
+                    src = ast.unparse(st)
+                    self.stmt_occ[id(st)] = seen.get(src, 0)
+                    seen[src] = seen.get(src, 0) + 1
+                for fld in ("body", "orelse", "finalbody"):
+                    sub = getattr(st, fld, None)
+                    if sub and not isinstance(st, ast.FunctionDef):
+                        _order(sub)
+        _order(self.fn.body)
+        self.stored_names = set()
+        for n in ast.walk(self.fn):
+            if isinstance(n, (ast.Assign, ast.AugAssign)):
+                for t in (n.targets if isinstance(n, ast.Assign) else [n.target]):
+                    if isinstance(t, ast.Subscript):
+                        self.stored_names |= set(_target_bases(t))
 
     # ------------------------------------------------------------------ helpers
     def fresh(self, base, sort):
@@ -702,6 +747,18 @@ class Engine:
             if z3.is_expr(v) and z3.is_int(v):
                 return v
             raise Unsupported("int() of non-int")
+        if name == "SLICE_TO":
+            return ("slice_to", self.ev(args[0], st, spec))
+        if name == "slice_len":
+            sl = self.ev(args[0], st, spec)
+            n = self.to_int(self.ev(args[1], st, spec))
+            return z3.simplify(self.slice_clamp(sl[1], n, n))
+        if name == "np.atleast_1d":
+            v = self.ev(args[0], st, spec)
+            if isinstance(v, Arr):
+                self.drop("np.atleast_1d on an array (identity)")
+                return v
+            raise Unsupported("np.atleast_1d of non-array")
         if name in self.callees:
             return self.call_contract(name, e, st)
         raise Unsupported("call %s at line %s" % (name, e.lineno))
@@ -739,10 +796,10 @@ class Engine:
         # ghost hooks keyed by statement text
         if self.c.hooks and not isinstance(s, (ast.If, ast.For, ast.While)):
             src = ast.unparse(s)
-            for pat, code, cnt in self.c.hooks:
-                if pat == src:
-                    if id(s) not in self.hook_hits.setdefault(pat, set()):
-                        self.hook_hits[pat].add(id(s))
+            for pat, code, occ in self.c.hooks:
+                if pat == src and (occ is None or self.stmt_occ.get(id(s)) == occ):
+                    if id(s) not in self.hook_hits.setdefault((pat, occ), set()):
+                        self.hook_hits[(pat, occ)].add(id(s))
                     new = []
                     for kind, s2, pay in outs:
                         if kind != "normal":
@@ -781,7 +838,8 @@ class Engine:
     def assign_to(self, t, val, st, node):
         if isinstance(t, ast.Name):
             if isinstance(val, Arr) and isinstance(node, ast.Assign) and isinstance(node.value, ast.Name):
-                raise Unsupported("array aliasing assignment %s at line %s" % (ast.unparse(node), node.lineno))
+                if t.id in self.stored_names or node.value.id in self.stored_names:
+                    raise Unsupported("array aliasing assignment %s at line %s" % (ast.unparse(node), node.lineno))
             st.env[t.id] = val
         elif isinstance(t, (ast.Tuple, ast.List)):
             if not isinstance(val, tuple) or len(val) != len(t.elts):
@@ -796,6 +854,22 @@ class Engine:
                     raise Unsupported("slice store")
                 idx = [self.ev(x, st) for x in sl.elts] if isinstance(sl, ast.Tuple) else [self.ev(sl, st)]
                 st.env[t.value.id] = self.arr_store(st, base, idx, val, t)
+                if t.value.id in self.c.shadows:
+                    g, srcname = self.c.shadows[t.value.id]
+                    rhs = getattr(node, "value", None)
+                    ok = isinstance(node, ast.Assign) and isinstance(rhs, ast.Subscript) and isinstance(rhs.value, ast.Name) \
+                        and not isinstance(rhs.slice, (ast.Slice, ast.Tuple))
+                    if ok and rhs.value.id == t.value.id:
+                        gv = self.arr_read(st, st.env[g], [self.ev(rhs.slice, st, True)], rhs, True)
+                    elif ok and rhs.value.id == srcname:
+                        gv = self.ev(rhs.slice, st, True)
+                    else:
+                        raise BindError("store into shadowed array %s from an untracked source: %s" % (t.value.id, ast.unparse(node)))
+                    self.quiet += 1
+                    try:
+                        st.env[g] = self.arr_store(st, st.env[g], idx, gv, t)
+                    finally:
+                        self.quiet -= 1
                 for an, code in self.c.store_hooks:
                     if an == t.value.id:
                         st.env["idx0"] = self.to_int(idx[0])
@@ -836,9 +910,27 @@ class Engine:
         if cb is not None:
             return self.exec_block(s.body if cb else s.orelse, st)
         c = self.to_bool(c)
-        s1 = st.copy(); s1.assume(c)
-        s2 = st.copy(); s2.assume(z3.Not(c))
-        return self.exec_block(s.body, s1) + self.exec_block(s.orelse, s2)
+        outs = []
+        if self.feasible(st, c):
+            s1 = st.copy(); s1.assume(c)
+            outs += self.exec_block(s.body, s1)
+        if self.feasible(st, z3.Not(c)):
+            s2 = st.copy(); s2.assume(z3.Not(c))
+            outs += self.exec_block(s.orelse, s2)
+        return outs
+
+    def feasible(self, st, cond):
+        """path pruning: False only if the quantifier-free part of the path condition refutes `cond`"""
+        sol = z3.Solver()
+        sol.set("timeout", 300)
+        for f in st.pc:
+            if not _has_quant(f):
+                sol.add(f)
+        sol.add(cond)
+        r = sol.check() != z3.unsat
+        if not r:
+            self.pruned += 1
+        return r
 
     def st_Break(self, s, st):
         return [("break", st, None)]
@@ -930,10 +1022,13 @@ class Engine:
     def ghost_mods(self, body):
         out = set()
         srcs = {ast.unparse(x) for b in body for x in ast.walk(b) if isinstance(x, ast.stmt)}
-        for pat, code, cnt in self.c.hooks:
+        for pat, code, occ in self.c.hooks:
             if pat in srcs:
                 out |= assigned_names(ast.parse("\n".join(code)).body)
         stored = assigned_names(body)
+        for an, (g, src_) in self.c.shadows.items():
+            if an in stored:
+                out.add(g)
         for an, code in self.c.store_hooks:
             if an in stored:
                 out |= assigned_names(ast.parse("\n".join(code)).body)
@@ -1070,12 +1165,14 @@ class Engine:
                     st.assume(sdim >= 0)
             if isinstance(v, PyList):
                 st.assume(v.length >= 0)
+        for r in c.requires_ + c.assumes_:
+            st.assume(self.to_bool(self.ev(ast.parse(r, mode="eval").body, st, True)))
+        self.quiet += 1
         for g, typ, init in c.ghosts:
             st.env[g] = self.ev(ast.parse(init, mode="eval").body, st, True)
             if isinstance(st.env[g], int):
                 st.env[g] = z3.IntVal(st.env[g])
-        for r in c.requires_ + c.assumes_:
-            st.assume(self.to_bool(self.ev(ast.parse(r, mode="eval").body, st, True)))
+        self.quiet -= 1
         self.entry = st.copy()
         self.canary(st, "entry", self.fn)
         body = self.fn.body
@@ -1105,10 +1202,10 @@ class Engine:
             else:
                 raise Unsupported("%s outside loop" % kind)
         # hooks must have bound somewhere
-        for pat, code, cnt in c.hooks:
-            hits = len(self.hook_hits.get(pat, ()))
+        for pat, code, occ in c.hooks:
+            hits = len(self.hook_hits.get((pat, occ), ()))
             if hits == 0:
-                raise BindError("ghost hook anchor %r not found in %s" % (pat, c.qualname))
+                raise BindError("ghost hook anchor %r (occurrence %s) not found in %s" % (pat, occ, c.qualname))
         ax = self.global_axioms()
         for o in self.obls:
             o.hyps = ax + o.hyps
